@@ -361,6 +361,11 @@ class Interp:
                                     f"{ast.unparse(tgt)}")
             for t, x in zip(tgt.elts, vs):
                 self.assign(t, x, env)
+        elif isinstance(tgt, ast.Attribute):
+            base = self.eval(tgt.value, env)
+            if not isinstance(base, Obj):
+                raise AnalysisError(f"attribute store on {base!r}")
+            base.fields[tgt.attr] = v
         elif isinstance(tgt, ast.Subscript):
             base = self.eval(tgt.value, env)
             idx = self.eval(tgt.slice, env)
@@ -411,6 +416,10 @@ class Interp:
                 self.block(st.orelse, env)
         elif isinstance(st, ast.For):
             it = self.eval(st.iter, env)
+            if isinstance(it, (set, frozenset)):
+                it = sorted(it, key=repr)      # a set of concrete keys
+            if isinstance(it, dict):
+                it = list(it)
             if not isinstance(it, (tuple, list, range)):
                 raise AnalysisError(f"loop over {it!r}")
             broke = False
@@ -456,6 +465,15 @@ class Interp:
             env[st.name] = Closure(st, env)
         elif isinstance(st, ast.ClassDef):
             env[st.name] = Opaque(f"class {st.name}")
+        elif isinstance(st, ast.Delete):
+            for t in st.targets:
+                if isinstance(t, ast.Subscript):
+                    base = self.eval(t.value, env)
+                    idx = self.eval(t.slice, env)
+                    if isinstance(base, (dict, list)):
+                        del base[idx]
+                        continue
+                raise AnalysisError(f"del {ast.unparse(t)}")
         elif isinstance(st, ast.Pass):
             return
         elif isinstance(st, ast.Break):
@@ -467,6 +485,12 @@ class Interp:
 
     # -- expressions ---------------------------------------------------------
     def binop(self, node, op, a, b):
+        try:
+            return self._binop(node, op, a, b)
+        except ZeroDivisionError:
+            raise Raised(node)
+
+    def _binop(self, node, op, a, b):
         if isinstance(a, Obj) or isinstance(b, Obj):
             return self.obj_binop(node, op, a, b)
         if isinstance(a, Native) or isinstance(b, Native):
@@ -599,6 +623,13 @@ class Interp:
                     raise AnalysisError(f"slice of {base!r}")
                 return base[slice(lo, hi, stp)]
             idx = self.eval(e.slice, env)
+            if isinstance(base, Native) and isinstance(idx, tuple):
+                return base[idx]
+            if isinstance(base, dict):
+                try:
+                    return base[idx]
+                except (KeyError, TypeError):
+                    raise Raised(e)
             if isinstance(base, (tuple, list, str, dict, Native)) and isinstance(
                     idx, (int, str)):
                 try:
@@ -649,6 +680,19 @@ class Interp:
                         gen(i + 1, s2)
             gen(0, env)
             return out
+        if isinstance(e, ast.DictComp):
+            out = {}
+            if len(e.generators) != 1:
+                return self._bad(e)
+            g = e.generators[0]
+            for x in list(self.eval(g.iter, env)):
+                s2 = dict(env)
+                self.assign(g.target, x, s2)
+                if all(self.truth(c, self.eval(c, s2)) for c in g.ifs):
+                    out[self.eval(e.key, s2)] = self.eval(e.value, s2)
+            return out
+        if isinstance(e, ast.Set):
+            return set(self._elts(e.elts, env))
         if isinstance(e, ast.Lambda):
             fn = ast.FunctionDef(name="<lambda>", args=e.args,
                                  body=[ast.Return(value=e.body)],
@@ -714,6 +758,20 @@ class Interp:
                     raise AnalysisError(f"method {fname} not found")
                 return self.call_function(r[1], [base] + args,
                                           dict(self.globals))
+            if isinstance(base, str) and e.func.attr in (
+                    "count", "startswith", "endswith", "join", "format",
+                    "replace", "strip", "split", "lower", "upper"):
+                if all(isinstance(a, (str, int, tuple, list)) for a in args):
+                    return getattr(base, e.func.attr)(*args)
+            if isinstance(base, dict) and e.func.attr in (
+                    "items", "keys", "values", "get", "setdefault", "pop",
+                    "copy", "update"):
+                r = getattr(base, e.func.attr)(*args)
+                return list(r) if e.func.attr in ("items", "keys", "values") \
+                    else r
+            if isinstance(base, (set, frozenset)) and e.func.attr in (
+                    "add", "union", "intersection", "copy", "discard"):
+                return getattr(base, e.func.attr)(*args)
             if isinstance(base, list) and e.func.attr in (
                     "append", "pop", "extend", "sort", "insert"):
                 if e.func.attr == "sort":
@@ -769,6 +827,7 @@ _CONCRETE = {
     ast.Mod: lambda a, b: a % b, ast.Pow: lambda a, b: a ** b,
     ast.BitAnd: lambda a, b: a & b, ast.BitOr: lambda a, b: a | b,
     ast.RShift: lambda a, b: a >> b, ast.LShift: lambda a, b: a << b,
+    ast.BitXor: lambda a, b: a ^ b,
     ast.Div: lambda a, b: Fraction(a) / b,
 }
 _DUNDER = {
@@ -776,6 +835,10 @@ _DUNDER = {
     ast.Mult: ("__mul__", "__rmul__"), ast.Div: ("__truediv__", "__rtruediv__"),
     ast.FloorDiv: ("__floordiv__", "__rfloordiv__"),
     ast.Mod: ("__mod__", "__rmod__"), ast.Pow: ("__pow__", "__rpow__"),
+    ast.BitOr: ("__or__", "__ror__"), ast.BitXor: ("__xor__", "__rxor__"),
+    ast.BitAnd: ("__and__", "__rand__"),
+    ast.LShift: ("__lshift__", "__rlshift__"),
+    ast.RShift: ("__rshift__", "__rrshift__"),
 }
 _CMP = {
     ast.Eq: lambda a, b: a == b, ast.NotEq: lambda a, b: a != b,
@@ -788,6 +851,9 @@ _BUILTINS = {
         x.items if isinstance(x, Native) and hasattr(x, "items") else x, s)),
     "reversed": lambda x: list(reversed(x)), "zip": lambda *a: list(zip(*a)),
     "tuple": lambda x=(): tuple(x), "list": lambda x=(): list(x),
+    "set": lambda x=(): set(x), "frozenset": lambda x=(): frozenset(x),
+    "dict": lambda x=(): dict(x), "any": any, "all": all, "sum": sum,
+    "bin": bin,
     "int": lambda x: x if isinstance(x, (int, Poly)) and not isinstance(
         x, bool) else int(x),
     "abs": abs, "min": min, "max": max, "str": str, "repr": repr,
